@@ -232,4 +232,20 @@ PROPS = {
                      'evaluated inside a non-empty iteration -- an argument, not a proof); Display/to_string wrappers; serde Serialize impls '
                      'other than Number; core::fmt itself (assumed not to fail or panic for the literals used); recursion depth.'),
     ),
+    'C17': dict(
+        title='The C API behaves exactly like the Rust API on the same values',
+        verus=[('u_capi', [r'^haystack_value_'])],
+        kani=[],
+        witness='enum:capi-list',
+        design_ref='DESIGN.md section 4, C17',
+        level_text=('Proof (Verus, under extraction rule R10 which turns the pointer protocol into types) for the list part of the C API: '
+                    'haystack_value_get_list_len / push_list_entry / set_list_entry_at / remove_list_entry_at behave as len / push / update / '
+                    'remove on the sequence the handle wraps, return TRUE exactly in those cases, and on every failure (wrong kind, null entry, '
+                    'index out of range) return the sentinel and leave the handle unchanged. Each call is verified for every handle state, so '
+                    'any finite sequence of these calls is covered by induction.'),
+        not_decided=('R10 assumes handles are live and unaliased (the ownership protocol of C18) and that a mutated handle is non-null; '
+                     'that the error message is retrievable through last_error_message (thread-local); every constructor/getter that '
+                     'crosses CStr/CString, borrowed entry pointers (*mut *const Value), dict, grid, datetime, zinc/json/filter entry points '
+                     '-- about 87 of the 91 extern "C" functions.'),
+    ),
 }
